@@ -87,7 +87,8 @@ def hist_sexp(h):
         if a[0] == "new":
             parts.append("(new)")
         elif a[0] == "set":
-            parts.append(f"(set {a[1]} '{a[2]} '{a[3]})")
+            enc = lambda t: "(" + " ".join(str(b) for b in t.encode()) + ")"
+            parts.append(f"(set {a[1]} {enc(a[2])} {enc(a[3])})")
         elif a[0] == "convert":
             parts.append("(convert %s)" % ("()" if a[1] is None else f"({a[1]})"))
         else:
